@@ -34,6 +34,11 @@ KILL_EXIT = 17
 # kinds reported by the wrappers -> model constructor
 MODEL_OP = {
     "open-r": "OpenRead", "open-w": "CreateTrunc", "open-a": "OpenAppend",
+    # builtin open() for writing, os.link/symlink/truncate: a file appears or
+    # changes behind h5py's back; it is never "closed" for the model, so no
+    # protocol accepts it on a temporary name, and on any other path it is
+    # outside every protocol anyway
+    "raw-open": "CreateTrunc",
     "close": "Close", "unlink": "Unlink", "rename": "Rename",
     # everything that changes the content of an open HDF5 file
     "dset-create": "Write", "group-create": "Write", "dset-write": "Write",
@@ -44,6 +49,39 @@ MODEL_OP = {
 
 class InjectedFault(OSError):
     pass
+
+
+class InjectedRuntimeError(RuntimeError):
+    pass
+
+
+class InjectedKeyError(KeyError):
+    pass
+
+
+class InjectedValueError(ValueError):
+    pass
+
+
+class InjectedMemoryError(MemoryError):
+    pass
+
+
+INJECTED = (InjectedFault, InjectedRuntimeError, InjectedKeyError,
+            InjectedValueError, InjectedMemoryError)
+EXC_KINDS = ["EIO", "ENOSPC", "EACCES", "EDQUOT", "RuntimeError", "KeyError",
+             "ValueError", "MemoryError"]
+
+
+def make_exc(exc_kind, msg):
+    """The exception an injected fault raises: h5py reports failed writes as
+    OSError (EIO, ENOSPC, EACCES, EDQUOT) but also as RuntimeError,
+    KeyError, ValueError; MemoryError for good measure."""
+    if exc_kind in ("EIO", "ENOSPC", "EACCES", "EDQUOT", None):
+        return InjectedFault(getattr(errno, exc_kind or "EIO"), msg)
+    return dict(RuntimeError=InjectedRuntimeError, KeyError=InjectedKeyError,
+                ValueError=InjectedValueError,
+                MemoryError=InjectedMemoryError)[exc_kind](msg)
 
 
 class Recorder:
@@ -61,6 +99,7 @@ class Recorder:
         self.exit_fault_at = None    # version_brand; fault at the n-th
         self.fault_pos = None    # operation index at which the fault hit
         self.signal_delay = 0.0  # seconds between operation start and signal
+        self.exc_kind = None     # see EXC_KINDS (default EIO)
 
     def inside(self, path):
         try:
@@ -95,17 +134,19 @@ class Recorder:
                 self.ops.append((kind, path, path2, detail))
                 return True
             self.ops.append(("FAULT:" + kind, path, path2, detail))
-            raise InjectedFault(errno.EIO, "injected I/O error at operation "
-                                "%d (%s %s)" % (idx, kind, detail))
+            raise make_exc(self.exc_kind, "injected %s at operation %d "
+                           "(%s %s)" % (self.exc_kind or "EIO", idx, kind,
+                                        detail))
         self.ops.append((kind, path, path2, detail))
         if self.fired:
             self.after_fault.append((kind, path, path2, detail))
         return False
 
     def raise_after(self, kind, detail=""):
-        raise InjectedFault(errno.EIO, "injected I/O error reported after "
-                            "operation %d (%s %s)" % (len(self.ops) - 1, kind,
-                                                      detail))
+        raise make_exc(self.exc_kind, "injected %s reported after "
+                       "operation %d (%s %s)" % (self.exc_kind or "EIO",
+                                                 len(self.ops) - 1, kind,
+                                                 detail))
 
 
 _REC = None
@@ -210,8 +251,9 @@ def _install_writer_exit():
                         and n == rec.exit_fault_at:
                     rec.fired = True
                     rec.fault_pos = len(rec.ops)
-                    raise InjectedFault(errno.EIO, "injected I/O error in "
-                                        "RTDCWriter.%s (call %d)" % (__attr, n))
+                    raise make_exc(rec.exc_kind, "injected %s in "
+                                   "RTDCWriter.%s (call %d)" % (
+                                       rec.exc_kind or "EIO", __attr, n))
             return __orig(self, *a, **kw)
         wrapper.__wrapped__ = orig
         setattr(RTDCWriter, attr, wrapper)
@@ -372,8 +414,13 @@ def install():
             if rec is None or rec.depth > 0:
                 return orig(path, *a, **kw)
             try:
-                p = os.path.realpath(os.fsdecode(path))
-            except TypeError:
+                p = os.fsdecode(path)
+                if kw.get("dir_fd") is not None and not os.path.isabs(p):
+                    # as issued by shutil.rmtree: relative to a directory fd
+                    p = os.path.join(os.readlink("/proc/self/fd/%d" %
+                                                 kw["dir_fd"]), p)
+                p = os.path.realpath(p)
+            except (TypeError, OSError):
                 return orig(path, *a, **kw)
             if not rec.inside(p):
                 return orig(path, *a, **kw)
@@ -388,6 +435,67 @@ def install():
             return res
         wrapper.__wrapped__ = orig
         setattr(os, name, wrapper)
+
+    # ---- files created or modified behind h5py's back -------------------
+    import builtins
+    orig_open = builtins.open
+
+    def raw_open(file, mode="r", *a, **kw):
+        rec = _REC
+        if rec is None or rec.depth > 0 or not isinstance(
+                file, (str, bytes, os.PathLike)) \
+                or not any(c in str(mode) for c in "wax+"):
+            return orig_open(file, mode, *a, **kw)
+        try:
+            p = os.path.realpath(os.fsdecode(file))
+        except (TypeError, ValueError):
+            return orig_open(file, mode, *a, **kw)
+        if not rec.inside(p):
+            return orig_open(file, mode, *a, **kw)
+        post = rec.hit("raw-open", p, None, str(mode))
+        rec.depth += 1
+        try:
+            res = orig_open(file, mode, *a, **kw)
+        finally:
+            rec.depth -= 1
+        if post:
+            rec.raise_after("raw-open")
+        return res
+    raw_open.__wrapped__ = orig_open
+    builtins.open = raw_open
+    import io as _io
+    _io.open = raw_open
+
+    def os_new_name(name, which):
+        orig = getattr(os, name, None)
+        if orig is None:
+            return
+
+        def wrapper(*a, **kw):
+            rec = _REC
+            if rec is None or rec.depth > 0:
+                return orig(*a, **kw)
+            try:
+                p = os.path.realpath(os.fsdecode(a[which]))
+            except (TypeError, IndexError):
+                return orig(*a, **kw)
+            if not rec.inside(p):
+                return orig(*a, **kw)
+            post = rec.hit("raw-open", p, None, name)
+            rec.depth += 1
+            try:
+                res = orig(*a, **kw)
+            finally:
+                rec.depth -= 1
+            if post:
+                rec.raise_after(name)
+            return res
+        wrapper.__wrapped__ = orig
+        setattr(os, name, wrapper)
+
+    os_new_name("link", 1)
+    os_new_name("symlink", 1)
+    os_new_name("truncate", 0)
 
     _install_writer_exit()
     os_two("rename")
